@@ -107,6 +107,7 @@ def worker_main(pid, tier, seed, w, nw, outpath, only=None):
             if res.sample is not None and len(report["samples"]) < 2:
                 report["samples"].append(res.sample)
         report["nontrivial_sigs"] = sorted(sigs)
+        report["obs"]["cases_run_by_an_optimised_interpreter" if not __debug__ else "cases_run_by_a_default_interpreter"] = report["cases"]
         if getattr(prop, "PIPELINES", False):
             from . import runner as _r2
             for k_, v_ in _r2.PIPELINE_STATS.items():
@@ -161,8 +162,13 @@ def drive(pid, tier, seed, workers=None):
     env["PYTHONWARNINGS"] = "ignore"
     for w in range(nw):
         out = os.path.join(tmpd, f"w{w}.json")
+        wenv = env
+        if nw > 1 and w == nw - 1 and getattr(prop, "OPTIMISED_WORKER", True):
+            # the last worker runs its share of the cases the way `python -O` does (assert statements compiled away): code that
+            # relies on an assert for something it must do shows there
+            wenv = dict(env, PYTHONOPTIMIZE="1")
         p = subprocess.Popen([PY, "-m", "vf.core", "--worker", pid, tier, str(seed), str(w), str(nw), out],
-                             cwd=VERIF, env=env, stdout=subprocess.PIPE, stderr=subprocess.STDOUT)
+                             cwd=VERIF, env=wenv, stdout=subprocess.PIPE, stderr=subprocess.STDOUT)
         procs.append((p, out))
     watchdog = prop.watchdog_s(tier)
     reports, inconclusive = [], []
